@@ -257,12 +257,66 @@ pub fn run_history(name: &str, toks: &[String]) -> String {
         "@nt" => run_nt(toks.get(0).map(|s| s.as_str()).unwrap_or(""), num(1)),
         "@conv" => run_conv(toks.get(0).map(|s| s.as_str()).unwrap_or(""), num(1)),
         "@sig" => { let s = SignatureScheme(num(0) as u16); format!("(sig {} {} {})", s.hash_alg(), s.sign_alg(), s.is_reserved()) }
+        "@from_name" => {
+            let raw: Vec<u8> = { let h = toks.get(0).map(|s| s.as_str()).unwrap_or(""); (0..h.len() / 2).map(|k| u8::from_str_radix(&h[2 * k..2 * k + 2], 16).unwrap_or(0)).collect() };
+            let s = String::from_utf8_lossy(&raw).to_string();
+            let a = TlsCipherSuite::from_name(&s).map(|c| c.id.0);
+            let b = { use core::convert::TryFrom; <&TlsCipherSuite>::try_from(s.as_str()).ok().map(|c| c.id.0) };
+            if a != b { "(routes-disagree)".to_string() } else { match a { Some(i) => format!("(Some {})", i), None => "None".to_string() } }
+        }
+        "@cipher" => match TlsCipherSuite::from_id(num(0) as u16) {
+            Some(c) => format!("(Some {} \"{}\" {:?} {:?} {:?} {:?} {} {:?} {} {:?} {} {} {})", c.id.0, c.name, c.kx, c.au, c.enc, c.enc_mode,
+                               c.enc_size, c.mac, c.mac_size, c.prf, c.enc_key_size(), c.enc_block_size(), c.mac_length()),
+            None => "None".to_string(),
+        },
         "@keybits" => match NamedGroup(num(0) as u16).key_bits() { Some(b) => format!("(Some {})", b), None => "None".to_string() },
         _ => "(noentry)".to_string(),
     }
 }
 
+/// T3b: the complete extension of the compiled cipher registry, as a Coq file
+fn dump_ciphers() -> i32 {
+    use core::convert::TryFrom;
+    let mut rows = String::new();
+    let mut routes = String::new();
+    let mut all_none = 0u32;
+    for id in 0u32..65536 {
+        let id16 = id as u16;
+        let r1 = TlsCipherSuite::from_id(id16);
+        let r2 = <&TlsCipherSuite>::try_from(id16).ok();
+        let r3 = <&TlsCipherSuite>::try_from(TlsCipherSuiteID(id16)).ok();
+        let r4 = TlsCipherSuiteID(id16).get_ciphersuite();
+        let rs = [r1, r2, r3, r4];
+        if rs.iter().all(|r| r.is_none()) {
+            all_none += 1;
+        } else {
+            let f = |r: &Option<&TlsCipherSuite>| match r { Some(c) => format!("Some {}", c.id.0), None => "None".to_string() };
+            routes.push_str(&format!("  ({}, [{}; {}; {}; {}]);\n", id, f(&rs[0]), f(&rs[1]), f(&rs[2]), f(&rs[3])));
+        }
+        if let Some(c) = r1 {
+            rows.push_str(&format!(
+                "  mkRow {} \"{}\" Kx{:?} Au{:?} Enc{:?} Mode{:?} {} Mac{:?} {} Prf{:?} {} {} {};\n",
+                c.id.0, c.name, c.kx, c.au, c.enc, c.enc_mode, c.enc_size, c.mac, c.mac_size, c.prf,
+                c.enc_key_size(), c.enc_block_size(), c.mac_length()
+            ));
+        }
+    }
+    let order: Vec<String> = CIPHERS.values().map(|c| format!("{}", c.id.0)).collect();
+    println!("(* GENERATED by the harness (T3b): complete dump of the compiled cipher registry -- do not edit *)");
+    println!("From Coq Require Import String NArith List.\nFrom TlsModel Require Import CipherTypes.\nImport ListNotations.\nOpen Scope N_scope. Open Scope string_scope.");
+    println!("(* from_id(id) for every id in 0..65535 that is listed, ascending; the last three columns are\n   enc_key_size(), enc_block_size(), mac_length() as computed by the implementation *)");
+    println!("Definition impl_rows : list cipher_row := [\n{}].", rows.trim_end_matches(";\n").to_string() + "\n");
+    println!("(* ids for which at least one lookup route returns a suite: [from_id; TryFrom<u16>; TryFrom<TlsCipherSuiteID>; get_ciphersuite], each as the id carried by the returned suite *)");
+    println!("Definition impl_routes : list (N * list (option N)) := [\n{}].", routes.trim_end_matches(";\n").to_string() + "\n");
+    println!("Definition impl_all_none_count : N := {}.", all_none);
+    println!("Definition impl_len : N := {}.", CIPHERS.len());
+    println!("Definition impl_values_order : list N := [{}].", order.join("; "));
+    0
+}
+
 pub fn command(args: &[String]) -> i32 {
-    eprintln!("unknown command {:?}", args);
-    2
+    match args.get(0).map(|s| s.as_str()) {
+        Some("dump-ciphers") => dump_ciphers(),
+        _ => { eprintln!("unknown command {:?}", args); 2 }
+    }
 }
